@@ -336,19 +336,22 @@ example :
 
 /-- "$GENERATE versus its expansion", one index: the `for` loop of `_generate_line` (owner through
 `dns.name.from_text`, RDATA through a fresh tokenizer over the substituted text) hands `txn.add` the same record as the
-reader does for the explicit line `owner SP ttl SP class SP type SP rdata NL` of the expansion. -/
-theorem generate_eq_expansion (r : PState) (nameT ttlT clsT tyT rdT rest : List Nat) (zo n m : Name) (ttl ty : Nat)
+reader does for the explicit line `owner SP ttl SP class SP type SP rdata NL` of the expansion.  `co` is the current
+origin (any `$ORIGIN` may have preceded), `zo` the zone origin: both call sites (`_rr_line`, `_generate_line`) hand
+`dns.rdata.from_text` the triple `(origin, relativize, relativize_to) = (current_origin, relativize, zone_origin)`, which
+is what `hline` (the line) and `hfresh` (the loop) speak about. -/
+theorem generate_eq_expansion (r : PState) (nameT ttlT clsT tyT rdT rest : List Nat) (co zo n m : Name) (ttl ty : Nat)
     (rd : Rdata) (comment : Option (List Nat)) (s' : TState)
-    (hco : r.currentOrigin = some zo) (hzo : r.zoneOrigin = some zo)
-    (hname : fromText nameT (some zo) = .ok n) (habs : isAbs n = true)
-    (hl : LineOK nameT ttlT clsT tyT zo zo n ttl ty)
+    (hco : r.currentOrigin = some co) (hzo : r.zoneOrigin = some zo)
+    (hname : fromText nameT (some co) = .ok n) (habs : isAbs n = true)
+    (hl : LineOK nameT ttlT clsT tyT co zo n ttl ty)
     (hm : ownerInZone r.relativize n zo = .ok m)
-    (hline : RdataReads ty (32 :: (rdT ++ [10])) rd comment (some zo) r.relativize (some zo) r.gfix)
-    (hfresh : rdataFromText ty (TState.init rdT) (some zo) r.relativize (some zo) r.gfix = .ok (rd, comment, s')) :
+    (hline : RdataReads ty (32 :: (rdT ++ [10])) rd comment (some co) r.relativize (some zo) r.gfix)
+    (hfresh : rdataFromText ty (TState.init rdT) (some co) r.relativize (some zo) r.gfix = .ok (rd, comment, s')) :
     (genItem ttl ty (nameT, rdT) r).map (·.1) =
     (lineStep { r with tok := after 0 false (nameT ++ (32 :: (ttlT ++ (32 :: (clsT ++ (32 :: (tyT ++ ((32 :: (rdT ++ [10])) ++ rest)))))))) }).map
       (fun x => evEntry x.1) :=
-  generate_item_eq_line r nameT ttlT clsT tyT rdT rest zo n m ttl ty rd comment s' hco hzo hname habs hl hm hline hfresh
+  generate_item_eq_line r nameT ttlT clsT tyT rdT rest co zo n m ttl ty rd comment s' hco hzo hname habs hl hm hline hfresh
 
 /-- "$GENERATE versus its expansion", the whole loop: when every index yields a record, what the loop does to the zone
 is the fold of `txn.add` over those records in index order — the same denotation `read_eq_interp` / `read_write` give
@@ -664,11 +667,14 @@ theorem generate_expansion_plain (a b s : Nat) (pre1 post1 pre2 post2 : List Nat
 the explicit record lines of its indices (same records, TTL written out, index order) take the reader — from the same
 state, with the same text after them — to the same zone and the same parser state, so the rest of the file is read
 alike.  (Per index: the owner resolves and the RDATA text reads, both from a fresh tokenizer as `_generate_line` does and
-in the line as `_rr_line` does — the interfaces of `generate_eq_expansion`.) -/
-theorem generate_eq_expansion_text (f : Nat) (r : PState) (z : ZoneMap) (zo : Name)
+in the line as `_rr_line` does — the interfaces of `generate_eq_expansion`.)  The state `r` is any state of the reader:
+its current origin `co` need not be the zone origin `zo` (`generate_after_origin_directives` below supplies such states
+from files with any run of `$ORIGIN` directives); relative owners and relative RDATA names of the lines and of the
+`$GENERATE` templates are completed with `co`, and stored relative to `zo`. -/
+theorem generate_eq_expansion_text (f : Nat) (r : PState) (z : ZoneMap) (co zo : Name)
     (rangeT lhs ttlT clsT tyT rhs rest : List Nat) (a b st ttl ty : Nat) (lm rm : Modify)
     (e : List Nat × List Nat → Entry) (nOf : List Nat × List Nat → Name) (ls : List GLine)
-    (hco : r.currentOrigin = some zo) (hzo : r.zoneOrigin = some zo)
+    (hco : r.currentOrigin = some co) (hzo : r.zoneOrigin = some zo)
     (k1 : TokOK rangeT) (k2 : TokOK lhs) (k3 : TokOK ttlT) (k4 : TokOK clsT) (k5 : TokOK tyT) (k6 : TokOK rhs)
     (hrange : grangeFromText rangeT = .ok (a, b, st)) (httl : ttlOf ttlT = some ttl)
     (hcls : classFromText clsT = some 1) (hty : typeFromText tyT = some ty)
@@ -678,12 +684,12 @@ theorem generate_eq_expansion_text (f : Nat) (r : PState) (z : ZoneMap) (zo : Na
         .ok (some (e item), { r with tok := after 0 false (10 :: rest), lastTTL := ttl, lastTTLKnown := true,
                                      lastName := some (nOf item) }))
     (hls : ls.map GLine.entry = (generateExpansion a b st lhs rhs lm rm).map e) (hne : ls ≠ [])
-    (hok : LinesOK zo r.relativize r.gfix r.lastName none ls) (hu : UniformLines ttl ls)
+    (hok : LinesOK co zo r.relativize r.gfix r.lastName none ls) (hu : UniformLines ttl ls)
     (hlast : lastN r.lastName ls = lastNameAfter nOf r.lastName (generateExpansion a b st lhs rhs lm rm)) :
     readLoop (f + 2)
         { r with tok := after 0 false (s2l "$GENERATE" ++ genHeaderText rangeT lhs ttlT clsT tyT rhs (10 :: rest)) } z =
     readLoop (f + ls.length) { r with tok := after 0 false (glinesText ls ++ rest) } z :=
-  generate_eq_lines f r z zo rangeT lhs ttlT clsT tyT rhs rest a b st ttl ty lm rm e nOf ls hco hzo k1 k2 k3 k4 k5 k6
+  generate_eq_lines f r z co zo rangeT lhs ttlT clsT tyT rhs rest a b st ttl ty lm rm e nOf ls hco hzo k1 k2 k3 k4 k5 k6
     hrange httl hcls hty hlm hrm hitems hls hne hok hu hlast
 
 /-- non-vacuity of `generate_eq_expansion_text`: `$GENERATE 1-2 h$ 300 IN A 10.0.0.$` against `h1 300 IN A 10.0.0.1`,
@@ -707,7 +713,7 @@ example (r0 : PState) (rest : List Nat) (hrel : r0.relativize = true) (hg : r0.g
         .ok (some (e item), { r0 with tok := after 0 false (10 :: rest), lastTTL := 300, lastTTLKnown := true,
                                       lastName := some (nOf item) })) ∧
     ls.map GLine.entry = (generateExpansion 1 2 1 lhs rhs {} {}).map e ∧
-    LinesOK zo r0.relativize r0.gfix r0.lastName none ls ∧ UniformLines 300 ls ∧
+    LinesOK zo zo r0.relativize r0.gfix r0.lastName none ls ∧ UniformLines 300 ls ∧
     lastN r0.lastName ls = lastNameAfter nOf r0.lastName (generateExpansion 1 2 1 lhs rhs {} {}) := by
   intro zo lhs rhs mk ls e nOf
   have hexp : generateExpansion 1 2 1 lhs rhs {} {} = [(s2l "h1", s2l "10.0.0.1"), (s2l "h2", s2l "10.0.0.2")] := by rfl
@@ -716,12 +722,12 @@ example (r0 : PState) (rest : List Nat) (hrel : r0.relativize = true) (hg : r0.g
     intro item hi ln
     simp only [List.mem_cons, List.mem_nil_iff, or_false] at hi
     rcases hi with rfl | rfl
-    · exact genItem_record _ (s2l "h1") (s2l "10.0.0.1") zo ([s2l "h1"] ++ zo) [s2l "h1"] 300 1 (.a [10, 0, 0, 1]) none _
+    · exact genItem_record _ (s2l "h1") (s2l "10.0.0.1") zo zo ([s2l "h1"] ++ zo) [s2l "h1"] 300 1 (.a [10, 0, 0, 1]) none _
         hco hzo rfl rfl (by simp [ownerInZone, hrel]; rfl) (by simp only [hrel, hg]; rfl)
-    · exact genItem_record _ (s2l "h2") (s2l "10.0.0.2") zo ([s2l "h2"] ++ zo) [s2l "h2"] 300 1 (.a [10, 0, 0, 2]) none _
+    · exact genItem_record _ (s2l "h2") (s2l "10.0.0.2") zo zo ([s2l "h2"] ++ zo) [s2l "h2"] 300 1 (.a [10, 0, 0, 2]) none _
         hco hzo rfl rfl (by simp [ownerInZone, hrel]; rfl) (by simp only [hrel, hg]; rfl)
   · rw [hexp]; rfl
-  · have good : ∀ i, i = 1 ∨ i = 2 → (mk i).Good zo r0.relativize r0.gfix := by
+  · have good : ∀ i, i = 1 ∨ i = 2 → (mk i).Good zo zo r0.relativize r0.gfix := by
       intro i hi
       rcases hi with rfl | rfl
       · refine ⟨⟨sp_blank, by simp⟩, ?_, rfl, by simp [ownerInZone, hrel]; rfl, ?_, ?_⟩
@@ -748,6 +754,118 @@ example (r0 : PState) (rest : List Nat) (hrel : r0.relativize = true) (hg : r0.g
     simp only [ls, List.mem_cons, List.mem_nil_iff, or_false] at hl
     rcases hl with rfl | rfl <;> exact ⟨rfl, rfl, by decide⟩
   · rw [hexp]; rfl
+
+/-- **"$GENERATE versus its expansion" in a file with arbitrary preceding `$ORIGIN` directives**: after any run
+`$ORIGIN t₁⏎ … $ORIGIN tₙ⏎` (zone origin `zo` known, so none of them changes it) the `$GENERATE` line and the explicit
+lines of its expansion are read alike, with relative names on both sides completed with the origin `co` of the last
+directive and stored relative to the zone origin `zo`.  (A `$GENERATE` loop that relativized its RDATA against the
+current origin instead — seeded change C09-c — fails `hitems` for name-bearing RDATA as soon as `co ≠ zo`: see the
+example below, whose target is `h1.hosts`, not `h1`.) -/
+theorem generate_after_origin_directives (f : Nat) (r : PState) (z : ZoneMap) (co zo : Name)
+    (ds : List (List Nat × Name))
+    (rangeT lhs ttlT clsT tyT rhs rest : List Nat) (a b st ttl ty : Nat) (lm rm : Modify)
+    (e : List Nat × List Nat → Entry) (nOf : List Nat × List Nat → Name) (ls : List GLine)
+    (hzo : r.zoneOrigin = some zo) (hds : OriginsOK ds) (hco : lastOrigin r.currentOrigin ds = some co)
+    (k1 : TokOK rangeT) (k2 : TokOK lhs) (k3 : TokOK ttlT) (k4 : TokOK clsT) (k5 : TokOK tyT) (k6 : TokOK rhs)
+    (hrange : grangeFromText rangeT = .ok (a, b, st)) (httl : ttlOf ttlT = some ttl)
+    (hcls : classFromText clsT = some 1) (hty : typeFromText tyT = some ty)
+    (hlm : parseModify lhs = some lm) (hrm : parseModify rhs = some rm)
+    (hitems : ∀ item ∈ generateExpansion a b st lhs rhs lm rm, ∀ ln,
+      genItem ttl ty item { r with tok := after 0 false (10 :: rest), currentOrigin := some co, lastTTL := ttl,
+                                   lastTTLKnown := true, lastName := ln } =
+        .ok (some (e item), { r with tok := after 0 false (10 :: rest), currentOrigin := some co, lastTTL := ttl,
+                                     lastTTLKnown := true, lastName := some (nOf item) }))
+    (hls : ls.map GLine.entry = (generateExpansion a b st lhs rhs lm rm).map e) (hne : ls ≠ [])
+    (hok : LinesOK co zo r.relativize r.gfix r.lastName none ls) (hu : UniformLines ttl ls)
+    (hlast : lastN r.lastName ls = lastNameAfter nOf r.lastName (generateExpansion a b st lhs rhs lm rm)) :
+    readLoop ((f + 2) + ds.length)
+        { r with tok := after 0 false (originsText ds ++
+            (s2l "$GENERATE" ++ genHeaderText rangeT lhs ttlT clsT tyT rhs (10 :: rest))) } z =
+    readLoop ((f + ls.length) + ds.length)
+        { r with tok := after 0 false (originsText ds ++ (glinesText ls ++ rest)) } z := by
+  have h1 := readLoop_origin_dirs ds (s2l "$GENERATE" ++ genHeaderText rangeT lhs ttlT clsT tyT rhs (10 :: rest))
+    { r with tok := after 0 false (originsText ds ++
+        (s2l "$GENERATE" ++ genHeaderText rangeT lhs ttlT clsT tyT rhs (10 :: rest))) } z zo (f + 2) hzo rfl hds
+  have h2 := readLoop_origin_dirs ds (glinesText ls ++ rest)
+    { r with tok := after 0 false (originsText ds ++ (glinesText ls ++ rest)) } z zo (f + ls.length) hzo rfl hds
+  rw [h1, h2]
+  simp only [hco]
+  exact generate_eq_expansion_text f { r with currentOrigin := some co } z co zo rangeT lhs ttlT clsT tyT rhs rest
+    a b st ttl ty lm rm e nOf ls rfl hzo k1 k2 k3 k4 k5 k6 hrange httl hcls hty hlm hrm hitems hls hne hok hu hlast
+
+/-- non-vacuity with a current origin that is not the zone origin and name-bearing RDATA: in the relativized zone `ex.`,
+after `$ORIGIN hosts.ex.`, the line `$GENERATE 1-2 a$ 300 IN CNAME h$` against `a1 300 IN CNAME h1`, `a2 300 IN CNAME h2`:
+owners `a1.hosts`, `a2.hosts` and targets `h1.hosts`, `h2.hosts` (relative to the zone origin) on both sides -/
+example (r0 : PState) (rest : List Nat) (hrel : r0.relativize = true) (hg : r0.gfix = true)
+    (hco : r0.currentOrigin = some [[104, 111, 115, 116, 115], [101, 120], []]) (hzo : r0.zoneOrigin = some [[101, 120], []]) :
+    let zo : Name := [[101, 120], []]
+    let hosts : List Nat := [104, 111, 115, 116, 115]
+    let co : Name := hosts :: zo
+    let lhs := s2l "a$"
+    let rhs := s2l "h$"
+    let mk : Nat → GLine := fun i =>
+      { owner := some (s2l "a" ++ natToDec i), b0 := [32], hdr := .tc (s2l "300") [32] (s2l "IN") [32] (s2l "CNAME"),
+        rdText := 32 :: (s2l "h" ++ natToDec i ++ [10]), n := [s2l "a" ++ natToDec i] ++ co,
+        m := [s2l "a" ++ natToDec i, hosts], ttl := 300, ty := 5, rd := .name1 [s2l "h" ++ natToDec i, hosts],
+        comment := none }
+    let ls := [mk 1, mk 2]
+    let e : List Nat × List Nat → Entry := fun it => ⟨[it.1, hosts], 300, 5, ⟨.name1 [it.2, hosts], none⟩⟩
+    let nOf : List Nat × List Nat → Name := fun it => [it.1] ++ co
+    fromText (s2l "hosts.ex.") none = .ok co ∧
+    generateExpansion 1 2 1 lhs rhs {} {} = [(s2l "a1", s2l "h1"), (s2l "a2", s2l "h2")] ∧
+    (∀ item ∈ generateExpansion 1 2 1 lhs rhs {} {}, ∀ ln,
+      genItem 300 5 item { r0 with tok := after 0 false (10 :: rest), lastTTL := 300, lastTTLKnown := true, lastName := ln } =
+        .ok (some (e item), { r0 with tok := after 0 false (10 :: rest), lastTTL := 300, lastTTLKnown := true,
+                                      lastName := some (nOf item) })) ∧
+    ls.map GLine.entry = (generateExpansion 1 2 1 lhs rhs {} {}).map e ∧
+    LinesOK co zo r0.relativize r0.gfix r0.lastName none ls ∧ UniformLines 300 ls ∧
+    lastN r0.lastName ls = lastNameAfter nOf r0.lastName (generateExpansion 1 2 1 lhs rhs {} {}) := by
+  intro zo hosts co lhs rhs mk ls e nOf
+  have hexp : generateExpansion 1 2 1 lhs rhs {} {} = [(s2l "a1", s2l "h1"), (s2l "a2", s2l "h2")] := by rfl
+  refine ⟨by rfl, hexp, ?_, ?_, ?_, ?_, ?_⟩
+  · rw [hexp]
+    intro item hi ln
+    simp only [List.mem_cons, List.mem_nil_iff, or_false] at hi
+    rcases hi with rfl | rfl
+    · exact genItem_record _ (s2l "a1") (s2l "h1") co zo ([s2l "a1"] ++ co) [s2l "a1", hosts] 300 5
+        (.name1 [s2l "h1", hosts]) none _ hco hzo rfl rfl (by simp [ownerInZone, hrel]; rfl) (by simp only [hrel, hg]; rfl)
+    · exact genItem_record _ (s2l "a2") (s2l "h2") co zo ([s2l "a2"] ++ co) [s2l "a2", hosts] 300 5
+        (.name1 [s2l "h2", hosts]) none _ hco hzo rfl rfl (by simp [ownerInZone, hrel]; rfl) (by simp only [hrel, hg]; rfl)
+  · rw [hexp]; rfl
+  · have good : ∀ i, i = 1 ∨ i = 2 → (mk i).Good co zo r0.relativize r0.gfix := by
+      intro i hi
+      rcases hi with rfl | rfl
+      · refine ⟨⟨sp_blank, by simp⟩, ?_, rfl, by simp [ownerInZone, hrel]; rfl, ?_, ?_⟩
+        · intro ow how
+          simp only [mk, Option.some.injEq] at how
+          subst how
+          exact ⟨by decide, by decide, by decide, rfl⟩
+        · exact ⟨⟨by decide, by decide⟩, ⟨sp_blank, by simp⟩, ⟨by decide, by decide⟩, ⟨sp_blank, by simp⟩,
+            ⟨by decide, by decide⟩, by decide, by decide, by decide⟩
+        · exact rdataReads_name1 5 (by decide) [32] (s2l "h1") [s2l "h1", hosts] none _ _ _ _ sp_blank (by simp) (by simp)
+            (by decide) (by decide) (by decide) (by simp only [hrel]; rfl)
+      · refine ⟨⟨sp_blank, by simp⟩, ?_, rfl, by simp [ownerInZone, hrel]; rfl, ?_, ?_⟩
+        · intro ow how
+          simp only [mk, Option.some.injEq] at how
+          subst how
+          exact ⟨by decide, by decide, by decide, rfl⟩
+        · exact ⟨⟨by decide, by decide⟩, ⟨sp_blank, by simp⟩, ⟨by decide, by decide⟩, ⟨sp_blank, by simp⟩,
+            ⟨by decide, by decide⟩, by decide, by decide, by decide⟩
+        · exact rdataReads_name1 5 (by decide) [32] (s2l "h2") [s2l "h2", hosts] none _ _ _ _ sp_blank (by simp) (by simp)
+            (by decide) (by decide) (by decide) (by simp only [hrel]; rfl)
+    exact ⟨good 1 (Or.inl rfl), by intro h; simp [mk] at h, by intro h; simp [mk, Hdr.hasTTL] at h,
+      good 2 (Or.inr rfl), by intro h; simp [mk] at h, by intro h; simp [mk, Hdr.hasTTL] at h, trivial⟩
+  · intro l hl
+    simp only [ls, List.mem_cons, List.mem_nil_iff, or_false] at hl
+    rcases hl with rfl | rfl <;> exact ⟨rfl, rfl, by decide⟩
+  · rw [hexp]; rfl
+
+/-- the same record with the RDATA relativized against the *current* origin (what seeded change C09-c makes of
+`_generate_line`) is a different record: the model's loop does not produce it -/
+example : (∃ s', rdataFromText 5 (TState.init (s2l "h1")) (some [[104, 111, 115, 116, 115], [101, 120], []]) true
+      (some [[101, 120], []]) true = .ok (.name1 [s2l "h1", [104, 111, 115, 116, 115]], none, s')) ∧
+    (Rdata.name1 [s2l "h1", [104, 111, 115, 116, 115]] ≠ .name1 [s2l "h1"]) :=
+  ⟨⟨_, rfl⟩, by decide⟩
 
 /-! ### D08 — `want_generic` (recorded finding; DESIGN §6)
 
